@@ -823,7 +823,11 @@ func runParent(c *Check, tier string, root uint64) int {
 			stats[d.leg+"_leg_runs"]++
 		}
 		if sig == "" {
-			fmt.Fprintf(os.Stderr, "HARNESS-TROUBLE check=%s worker died on seed %d (unclassified):\n%s\n", c.ID, d.seed, tail(d.stderr, 4000))
+			head := d.stderr
+			if len(head) > 2500 {
+				head = head[:2500] + "\n[...]"
+			}
+			fmt.Fprintf(os.Stderr, "HARNESS-TROUBLE check=%s worker died on seed %d (unclassified):\n%s\n%s\n", c.ID, d.seed, head, tail(d.stderr, 3000))
 			return 2
 		}
 		v := Violation{Property: c.ID, Sig: sig, Msg: msg}
